@@ -9,20 +9,20 @@ PROP = {
     "engines": [
         # lock-step: one request at a time, run to quiescence; model diff + monitor
         {"name": "handlers-seq", "crate": "core", "bin": "sv-c06", "machine": "c06",
-         "cases": {"quick": 40000, "thorough": 2000000}, "min_shard": 2000, "nontrivial_min_ops": 2},
+         "cases": {"quick": 40000, "thorough": 1800000}, "min_shard": 2000, "nontrivial_min_ops": 2},
         # bursts of requests on several lanes with suspended futures: the order in which the real agent task picks
         # them (tokio select!) is not modelled, the monitor decides the property on the trace alone
         {"name": "handlers-burst", "crate": "core", "bin": "sv-c06", "machine": "c06", "modes": ["monitor"],
-         "gen_args": ["burst"], "cases": {"quick": 20000, "thorough": 1000000}, "min_shard": 2000,
+         "gen_args": ["burst"], "cases": {"quick": 20000, "thorough": 900000}, "min_shard": 2000,
          "nontrivial_min_ops": 2},
         # the same agent run through the public Agent::run with the HARNESS as the runtime (AgentContext): lane
         # outputs of 1..64 bytes read only on scripted steps (`rd`), sync requests and updates queueing up behind a
         # write in flight (WriteResult::DataStillAvailable, late WriteComplete); lock-step: model diff + monitor
         {"name": "handlers-slow", "crate": "core", "bin": "sv-c06", "machine": "c06", "gen_args": ["slow"],
-         "cases": {"quick": 16000, "thorough": 800000}, "min_shard": 2000, "nontrivial_min_ops": 2},
+         "cases": {"quick": 16000, "thorough": 600000}, "min_shard": 2000, "nontrivial_min_ops": 2},
         # ... with bursts of requests and sync requests in flight: monitor only
         {"name": "handlers-slow-burst", "crate": "core", "bin": "sv-c06", "machine": "c06", "modes": ["monitor"],
-         "gen_args": ["slowburst"], "cases": {"quick": 8000, "thorough": 400000}, "min_shard": 2000,
+         "gen_args": ["slowburst"], "cases": {"quick": 8000, "thorough": 300000}, "min_shard": 2000,
          "nontrivial_min_ops": 2},
     ],
     "level_text": "Proof: for every handler program of the modelled language (effect/get/set/get-and_then-set/map "
